@@ -1384,6 +1384,10 @@ pub fn array_splice(
         .array_elements_mut()
         .ok_or_else(|| JsError::type_error("Array.prototype.splice called on non-array"))?;
 
+    // Converting the arguments may have run user code that shrank the array
+    let start = start.min(elements.len());
+    let delete_count = delete_count.min(elements.len() - start);
+
     // Remove elements and collect them
     let removed: Vec<JsValue> = elements.drain(start..start + delete_count).collect();
 
@@ -1549,7 +1553,7 @@ pub fn array_from(
                     let length = interp.coerce_to_number(&length_val)?;
                     let length = if length.is_nan() || length <= 0.0 {
                         0usize
-                    } else if length > 4294967295.0 {
+                    } else if length > crate::value::MAX_ARRAY_LENGTH as f64 {
                         return Err(JsError::range_error("Invalid array length"));
                     } else {
                         length as usize
